@@ -764,6 +764,10 @@ def gen_frontend_tables(repo, outdir, notes):
         if (isinstance(s0, ast.Expr) and isinstance(s0.value, ast.Call) and isinstance(s0.value.func, ast.Attribute)
                 and s0.value.func.attr == "clear" and isinstance(s0.value.func.value, ast.Name)):
             cleared.append(s0.value.func.value.id)
+        elif isinstance(s0, ast.Expr) and ast.unparse(s0) == "SourceRef.reset_refs()":
+            cleared.append("SourceRef.reset_refs")
+        elif isinstance(s0, ast.For):
+            break
     text += "Definition cleared : list string := " + clist([cstr(x) for x in cleared]) + ".\n\n"
     for name in ("nada_dsl_to_nada_mir", "to_party_list", "to_input_list", "to_literal_list", "to_mir_function_list",
                  "add_input_to_map", "traverse_and_process_operations", "process_operation", "nada_compile"):
@@ -915,6 +919,39 @@ def gen_source_ref(repo, outdir, notes):
                if (isinstance(n, ast.FunctionDef) and n.name.startswith("_"))
                or (isinstance(n, ast.Assign) and ast.unparse(n.targets[0]).startswith("_"))]
     text += "Definition sr_private_helpers : list string := " + clist(helpers) + ".\n"
+    # ---- the process-global source tables: what reset_refs clears, whether get_sources filters by the indexed
+    # references, whether the text cache is validated by path, the key of to_index
+    def opt_method(name):
+        return next((n for n in c.body if isinstance(n, ast.FunctionDef) and n.name == name), None)
+    rr_ = opt_method("reset_refs")
+    cleared_by_reset = []
+    if rr_ is not None:
+        for s0 in body_nodoc(rr_):
+            u = ast.unparse(s0)
+            mm_ = _re.fullmatch(r"(\w+)\.clear\(\)", u)
+            if mm_:
+                cleared_by_reset.append(mm_.group(1))
+            elif u == "next_index = 0":
+                cleared_by_reset.append("next_index")
+            elif isinstance(s0, ast.Global):
+                pass
+            else:
+                fail(s0, "reset_refs: unrecognised statement")
+    gs = opt_method("get_sources")
+    gsb = [ast.unparse(s0) for s0 in body_nodoc(gs)] if gs is not None else []
+    filtered = gsb == ["used = {ref['file'] for ref in REFS}", "return {name: src for name, src in USED_SOURCES.items() if name in used}"]
+    if not filtered and gsb != ["return USED_SOURCES"]:
+        fail(gs, "get_sources: unrecognised body")
+    by_path = any("_SOURCE_PATHS.get(filename) != path" in x for x in pre) and any("_SOURCE_PATHS[filename] = path" in x for x in pre) \
+        and any(x.startswith("path = backend_frame.f_code.co_filename") for x in pre)
+    ti = opt_method("to_index")
+    tib = [ast.unparse(s0).replace("\n", " ; ") for s0 in body_nodoc(ti)]
+    if tib != ["global next_index", "key = self.to_key()", "value = self.to_value()", "if key in index_map: ;     return index_map[key]",
+               "index_map[key] = next_index", "REFS.append(value)", "next_index += 1", "return index_map[key]"]:
+        fail(ti, "to_index: unrecognised body")
+    text += "Definition sr_reset_clears : list string := " + clist([cstr(x) for x in cleared_by_reset]) + ".\n"
+    text += f"Definition sr_sources_filtered : bool := {'true' if filtered else 'false'}.\n"
+    text += f"Definition sr_cache_checks_path : bool := {'true' if by_path else 'false'}.\n"
     text += "Definition bf_rest : list string := " + clist([cstr(x) for x in rest_src]) + ".\n\n"
     text += f"Definition li_split : string := {cstr(split_src)}.\n"
     text += f"Definition li_guard_le : bool := {'true' if op == 'CLe' else 'false'}.\n"
